@@ -9,7 +9,8 @@ def run(ctx):
     states, trans, detail = role1(ctx, [("MC_Cobs", "MC_Cobs_%s.cfg" % t, {"timeout": 3000})])
     cases, n = generate(ctx, "MC_Cobs", "Gen_Cobs_%s.cfg" % t, timeout=3000)
     args = ["c16", "--cases", cases, "--seed", str(ctx.seed), "--long", t,
-            "--max-exhaustive", "16" if t == "quick" else "20"]
+            "--max-exhaustive", "16" if t == "quick" else "20",
+            "--max-exhaustive-damage", "16" if t == "quick" else "12", "--sampled", "600"]
     res = harness(ctx, vh, args, timeout=3400)
     cov = {
         "states": states, "transitions": trans, "role1": detail,
@@ -25,7 +26,7 @@ def run(ctx):
                 "complete stream replays; distinct_nontrivial = distinct (wire, damage) cases that have more than "
                 "one frame or a damage event, plus long-frame streams.",
         "exhaustive": True,
-        "exhaustive_what": "all segmentations of every TLC-generated wire; the long-frame family is sampled beyond pairs of cuts",
+        "exhaustive_what": "all segmentations of every TLC-generated wire (thorough tier: damaged wires longer than 12 bytes get 600 seeded segmentations plus the two extremes instead); the long-frame family is sampled beyond pairs of cuts",
         "samples": res["samples"],
         "extra": res.get("extra"),
     }
